@@ -748,7 +748,11 @@ MANIFEST = dict(
           'rewrites the first access on any object returns exactly the first Content-Length bytes and never reads '
           'beyond), C04_cached_body_stable (afterwards every access returns the same body whatever else happens to the '
           'family, and reads no stream), C04_copy_presents_same_body, C04_refusal_marks_request and C04_failed_read_is_final (a refused read is final: later accesses repeat the refusal without touching any stream - the repaired defect F43); C04_only_new_input_drops_buffered_body is proved '
-          'about the invalidation table extracted from BaseRequest._on_env_changed on every run. '
+          'about the invalidation table extracted from BaseRequest._on_env_changed on every run; '
+          'C04_hand_on_presents_buffered_body, C04_next_consumer_after_first_access and '
+          'C04_buffered_copy_presents_same_body_to_next_consumer cover the next consumer of the environ (a mounted WSGI '
+          'application, a second Request without the cache keys): it is presented the same body and the buffered copy ends '
+          'at byte Content-Length. '
           'The hand-written models (coq/model/Body.v, ReqBody.v) are tied to /repo on every run by a differential correspondence '
           '(extracted OCaml + vm_compute) on _body_read and Request.body, and an independent oracle searches for the '
           'failing input when a tie breaks.'),
